@@ -106,11 +106,11 @@ def unit_for(value_type):
     return env
 
 
-def build():
+def build(repo=None):
     import os
     import re
     from vf import unit as U
-    src = open(os.path.join(U.REPO, FI)).read()
+    src = open(os.path.join(repo or U.REPO, FI)).read()
     m = re.search(r'id_map:\s*Singleton<HashMap<usize,\s*([A-Za-z<>]+)>>', src)
     value = {'Weak<XmlItem>': 'WeakWrapper', 'WeakItem': 'WeakItem'}.get(m.group(1) if m else '', 'WeakWrapper')
     env = unit_for(value)
@@ -135,4 +135,4 @@ def build():
 
 
 TEMPLATE, FNS = build()
-UNIT = dict(name='c12_idmap', template=TEMPLATE, fns=FNS, props=['C12'])
+UNIT = dict(name='c12_idmap', template=TEMPLATE, fns=FNS, props=['C12'], build=build)
